@@ -31,4 +31,13 @@ def Sl.put32 (m : Mem) (s : Sl) (a : Nat) (v : Nat) : Outcome Mem := do
   let d ← s.reslice m a (a + 4)
   pure (poke m d.off [UInt8.ofNat (v / 16777216), UInt8.ofNat (v / 65536), UInt8.ofNat (v / 256), UInt8.ofNat v])
 
+/-- the byte string returned by a builder that allocates its own buffer (`Gen.Enc.*Marshal`, `EncodeDNSQuery`) -/
+def builtBytes (r : Outcome (Mem × Sl)) : Outcome Bytes := r >>= fun x => pure (x.2.bytes x.1)
+
+/-- `p, _ := builder(…)`: the error is dropped and `p` is nil (the empty byte string) -/
+def ownOrNil (r : Outcome (Mem × Sl)) : Outcome Bytes :=
+  match r with
+  | .err _ => .ok []
+  | r => builtBytes r
+
 end PV.Model
